@@ -28,6 +28,9 @@ impl Transport {
 			};
 			(loop_start, loop_end)
 		});
+		// an empty or inverted loop region can't be looped over (wrapping the
+		// position into it would never terminate), so it's treated as no loop
+		let loop_region = loop_region.filter(|(loop_start, loop_end)| loop_end > loop_start);
 		Self {
 			position: if reverse {
 				num_frames - 1 - start_position
@@ -53,6 +56,11 @@ impl Transport {
 			};
 			(loop_start, loop_end)
 		});
+		// an empty or inverted loop region can't be looped over (wrapping the
+		// position into it would never terminate), so it's treated as no loop
+		self.loop_region = self
+			.loop_region
+			.filter(|(loop_start, loop_end)| loop_end > loop_start);
 	}
 
 	pub fn increment_position(&mut self, num_frames: usize) {
